@@ -428,4 +428,45 @@ theorem lookup_unguarded_loses_fn :
     (lookup false twins ⟨0, "RTwin", "reuse/RTwin"⟩).1.ents = [⟨0, none⟩, ⟨1, none⟩] ∧
     (lookup true twins ⟨0, "RTwin", "reuse/RTwin"⟩).1 = twins := by decide
 
+/-- the full name leads nowhere, or to an entry of another type -/
+def Regy.Unregistered (r : Regy) (t : Ty) : Prop :=
+  ∀ i c, r.find t.full = some i → r.ents[i]? = some c → c.rtype ≠ t.id
+
+theorem registerComposer_unregistered (g : Bool) (r : Regy) (t : Ty) (f : Option Nat) (h : r.Unregistered t) :
+    registerComposer g r t f = r.fresh t f := by
+  unfold registerComposer
+  split
+  · rename_i i hi
+    split
+    · rename_i c hc
+      have := h i c hi hc
+      simp [this]
+    · rfl
+  · rfl
+
+/-- **"registered beforehand" is needed**: filling a value of a type the registry does not hold (neither under its
+full name nor, as this type, under its short name) WRITES the registry — a new entry and two keys — with either
+form of the already-registered branch: the first `Recompose` calls of several goroutines then race on `r.composers` -/
+theorem lookup_unregistered_writes (g : Bool) (r : Regy) (t : Ty) (h : r.Unregistered t)
+    (hs : ∀ i c, r.find t.short = some i → r.ents[i]? = some c → c.rtype ≠ t.id) :
+    (lookup g r t).1.ents.length = r.ents.length + 1 ∧ (lookup g r t).1 ≠ r := by
+  have hl : lookup g r t = r.fresh t none := by
+    unfold lookup
+    split
+    · rename_i i hi
+      split
+      · rename_i c hc
+        have := hs i c hi hc
+        simp [this, registerComposer_unregistered g r t none h]
+      · exact registerComposer_unregistered g r t none h
+    · exact registerComposer_unregistered g r t none h
+  rw [hl]
+  refine ⟨by simp [Regy.fresh], fun e => ?_⟩
+  have := congrArg (fun x => x.ents.length) e
+  simp [Regy.fresh] at this
+
+example : twins.Unregistered ⟨7, "Other", "pkg/Other"⟩ := by
+  intro i c hf
+  simp [Regy.find, twins, List.lookup] at hf
+
 end OjgVerif.Reuse.Shared
